@@ -68,15 +68,14 @@ func init() {
 		QuickRuns: 5000, QuickBudgetS: 30, ThoroughRuns: 600000, ThoroughBudgetS: 600,
 		Rule: "three parties with tape-derived secp256k1 keys: honest A and B (real network.Authenticator objects and handlers on real Peer objects over simulated links; the harness plays Peer.receiveRoutine as a scheduler task) and adversary M (scripted speaker of the wire protocol with its own key). " +
 			"Profile honest: one or two concurrent sessions between A and B with secure suite none/ecdhe/tls and a drawn AEAD; both ends must authenticate the other with the right identity. " +
-			"Profile adversary: M attacks B as dialer or as acceptor (suite none or ecdhe) with one of: honest proof (must be accepted as M), same with uncompressed key, relay of A's proof harvested in a session A<->M, A's key with M's signature, M's signature over another secret (other session's / this session's traffic key / random), one mutated/truncated/extended/empty public key or signature, signature message before the secure exchange, B's own proof harvested in an earlier session, identity switch after authentication; optionally a concurrent honest A<->B session. " +
-			"Oracle (independent of Authenticator.VerifySignature): whenever an authenticator hands a peer on as authenticated with identity X, the public key presented in that session is the key of the wallet with address X and the presented signature verifies (decred secp256k1 + SHA3-256) under it over the session secret of the verifying peer object; a peer is handed on at most once and its identity does not change afterwards; honest proofs are accepted. " +
+			"Profile adversary: M attacks B as dialer or as acceptor (suite none or ecdhe) with one of: honest proof (must be accepted as M), same with uncompressed key, relay of A's proof harvested in a session A<->M, A's key with M's signature, M's signature over another secret (other session's / this session's traffic key / random), one mutated/truncated/extended/empty public key or signature, signature message before the secure exchange, B's own proof harvested in an earlier session, identity switch after authentication, byte-for-byte replay of everything A wrote in an earlier honest A->B session that M recorded on the wire (must never be authenticated); optionally a concurrent honest A<->B session. " +
+			"Oracle (independent of Authenticator.VerifySignature): whenever an authenticator hands a peer on as authenticated with identity X, the public key presented in that session is the key of the wallet with address X and the presented signature verifies (decred secp256k1 + SHA3-256) under it over the session secret of the verifying peer object; a peer is handed on at most once and its identity does not change afterwards; honest proofs are accepted; no two different connections of the honest parties ever hold the same session secret (otherwise a proof for one session is a proof for the other). " +
 			"Non-trivial = at least one session reached a verdict (authenticated or rejected); distinct = distinct event-log hash.",
 		QuickProbes: []string{"authenticated_with_valid_proof", "false_proof_rejected", "proof_harvested", "attack:relay-other-session", "attack:pubA-sigM", "attack:sigM-other-secret",
-			"attack:mutate-public-key", "attack:mutate-signature", "attack:signature-before-secure-exchange", "attack:replay-victims-own-proof", "pair_suite:ecdhe", "pair_suite:none"},
+			"attack:mutate-public-key", "attack:mutate-signature", "attack:signature-before-secure-exchange", "attack:replay-victims-own-proof", "attack:replay-recorded-transcript", "transcript_recorded", "pair_suite:ecdhe", "pair_suite:none"},
 		EssentialProbes: []string{"pair_suite:tls", "attack:post-auth-identity-switch", "attack:honest-uncompressed-key", "victim_answered_with_error"},
 		Assumptions: []string{
 			"'assigned an identity' = handed to the next peer handler by nextOnPeer with Peer.ID() set (a rejected, closed peer whose id field was written before the check is only counted: probe id_field_set_on_rejected_peer)",
-			"the adversary cannot make two sessions share a session secret (it would need an honest party's ephemeral private key)",
 			"M never negotiates the TLS suite (M does not speak TLS); TLS is exercised between the honest parties only",
 		},
 		Real: []string{"network/authenticator.go: Authenticator.onPeer/onPacket, handleSecureRequest/Response, handleSignatureRequest/Response, Signature, VerifySignature, applySecureConn, suite negotiation; network/peerhandler.go wait-info sequencing, sendMessage/decode; network/peer.go Peer (sendDirect, ResetConn, CloseByError), PacketReader/Writer; network/secure.go; network/peerid.go; crypto/tls for suite tls"},
